@@ -167,7 +167,7 @@ func init() {
 			})
 		c.mustRow(hm["suspect"], "C02/suspect/refute", "suspect claim, not older, about the running (alive) local node: refuted on every path",
 			[]string{"REFUTE"}, func(g getf) bool {
-				return isT(g, vOK) && geq(g, vOrd) && isT(g, vSelf) && !isT(g, vTimer) && g(vS0) == "StateAlive"
+				return isT(g, vOK) && geq(g, vOrd) && isT(g, vSelf) && !isT(g, vLeft) && !isT(g, vTimer) && g(vS0) == "StateAlive"
 			})
 		a := hm["alive"]
 		c.mayRow(a, "C02/alive/self-only-refute", "an alive claim from the network about the local node never rewrites the local record or gossips the foreign claim: the only reaction is a refutation",
